@@ -499,6 +499,63 @@ path "*" { capabilities = ["read", "update", "list"] }`
 				res.Note("sealed-namespace part skipped: namespace creation returned no key shares")
 			}
 		}
+		// ---- S2: a separately sealed namespace NESTED in another one. Both are unsealed and
+		// hold data; the outer one is sealed (which seals everything below it) and unsealed
+		// again with ITS shares only: the inner one has its own seal, none of its shares
+		// were supplied, so it must still be sealed - and once it is unsealed with its own
+		// shares its data must be there.
+		if ti == 1 {
+			oShares := s.mkNS(t, "outer/", true)
+			for _, sh := range oShares {
+				_, _ = s.Req(s.Root, logical.UpdateOperation, "sys/namespaces/outer/unseal", map[string]interface{}{"key": sh})
+			}
+			nsO := s.nsByPath(t, "outer/")
+			ir, ie := s.ReqNS(nsO, s.Root, logical.UpdateOperation, "sys/namespaces/inner", map[string]interface{}{"seal": `seal "shamir" { shares = "1" threshold = "1" }`})
+			var iShares []string
+			if OK(ir, ie) && ir != nil {
+				iShares, _ = ir.Data["key_shares"].([]string)
+			}
+			if len(oShares) > 0 && len(iShares) > 0 {
+				for _, sh := range iShares {
+					_, _ = s.ReqNS(nsO, s.Root, logical.UpdateOperation, "sys/namespaces/inner/unseal", map[string]interface{}{"key": sh})
+				}
+				nsI := s.nsByPath(t, "outer/inner/")
+				s.Must(s.ReqNS(nsI, s.Root, logical.UpdateOperation, "sys/mounts/m", map[string]interface{}{"type": "rec"}))
+				s.Must(s.prog(nsI, s.Root, "m/", []map[string]interface{}{{"op": "put", "key": "inner-data"}}))
+				if sr, se := s.Req(s.Root, logical.UpdateOperation, "sys/namespaces/outer/seal", nil); OK(sr, se) {
+					for _, sh := range oShares {
+						_, _ = s.Req(s.Root, logical.UpdateOperation, "sys/namespaces/outer/unseal", map[string]interface{}{"key": sh})
+					}
+					s.settle()
+					for _, op := range []string{"get", "put", "list", "delete"} {
+						from := s.Phys.LogLen()
+						r, e := s.prog(nsI, s.Root, "m/", []map[string]interface{}{{"op": op, "key": "inner-data"}})
+						res.Add("evaluations", 1)
+						if OK(r, e) {
+							res.Violate("c12:sealed-namespace:nested-namespace-served-without-its-own-shares", fmt.Sprintf("%s on a mount of outer/inner/ succeeded after only outer/ was unsealed: %s", op, respText(r)), nil)
+						}
+						for _, o := range s.Phys.LogSince(from) {
+							if strings.Contains(o.Key, nsI.UUID) && (o.Kind == "put" || o.Kind == "delete") && o.Err == "" {
+								res.Violate("c12:sealed-namespace:storage-written", fmt.Sprintf("%s on the still sealed nested namespace wrote %s", op, o.Key), nil)
+							}
+						}
+						res.Distinct("nontrivial", "S2|"+op)
+					}
+					// its own shares open it, and the data is there
+					for _, sh := range iShares {
+						_, _ = s.ReqNS(nsO, s.Root, logical.UpdateOperation, "sys/namespaces/inner/unseal", map[string]interface{}{"key": sh})
+					}
+					s.settle()
+					if r, e := s.prog(nsI, s.Root, "m/", []map[string]interface{}{{"op": "get", "key": "inner-data"}}); !OK(r, e) || !strings.Contains(respText(r), "PROG-VALUE") {
+						res.Note("nested sealed namespace: after unsealing with its own shares the data is not readable: %s %s", respText(r), ErrText(r, e))
+					}
+				} else {
+					res.Note("nested sealed-namespace part skipped: seal of outer/ failed: %s", ErrText(sr, se))
+				}
+			} else {
+				res.Note("nested sealed-namespace part skipped: no key shares (outer %d, inner %d: %s)", len(oShares), len(iShares), ErrText(ir, ie))
+			}
+		}
 		s.Close()
 	}
 	sort.Strings(c12Keys)
